@@ -393,8 +393,10 @@ func (enc *Encoder) write2dInterfaceSliceBody(slice [][]interface{}, n int) {
 }
 
 func (enc *Encoder) writeBytesSliceBody(slice [][]byte, n int) {
-	enc.AddReferenceCount(n)
 	for i := 0; i < n; i++ {
+		if slice[i] != nil {
+			enc.AddReferenceCount(1)
+		}
 		enc.buf = appendBytes(enc.buf, slice[i])
 	}
 }
